@@ -1,0 +1,68 @@
+//go:build verif
+
+// This file is compiled only with the "verif" build tag. It adds read-only
+// accessors used by the external verification harnesses; it does not change
+// the behaviour of the package.
+
+package rib
+
+import (
+	"sort"
+
+	spb "github.com/openconfig/gribi/v1/proto/service"
+)
+
+// VerifPendingOp describes one operation that is held in the pending queue.
+type VerifPendingOp struct {
+	// ID is the key under which the operation is held.
+	ID uint64
+	// NI is the network instance the operation was received for.
+	NI string
+	// Op is the held operation (not copied).
+	Op *spb.AFTOperation
+}
+
+// VerifPending returns a snapshot of the held operations, sorted by key.
+func (r *RIB) VerifPending() []VerifPendingOp {
+	r.pendMu.RLock()
+	defer r.pendMu.RUnlock()
+	p := make([]VerifPendingOp, 0, len(r.pendingEntries))
+	for id, e := range r.pendingEntries {
+		p = append(p, VerifPendingOp{ID: id, NI: e.ni, Op: e.op})
+	}
+	sort.Slice(p, func(i, j int) bool { return p[i].ID < p[j].ID })
+	return p
+}
+
+// VerifRefCount is a copy of the reference counters of one network instance.
+type VerifRefCount struct {
+	// NextHop is keyed by next-hop index.
+	NextHop map[uint64]uint64
+	// NextHopGroup is keyed by next-hop-group ID.
+	NextHopGroup map[uint64]uint64
+}
+
+// VerifRefCounts returns a copy of the reference counters of every network
+// instance, keyed by network instance name. Zero-valued counters are omitted.
+func (r *RIB) VerifRefCounts() map[string]VerifRefCount {
+	r.nrMu.RLock()
+	defer r.nrMu.RUnlock()
+	out := map[string]VerifRefCount{}
+	for name, niR := range r.niRIB {
+		niR.refCounts.mu.RLock()
+		c := VerifRefCount{NextHop: map[uint64]uint64{}, NextHopGroup: map[uint64]uint64{}}
+		for k, v := range niR.refCounts.NextHop {
+			if v != 0 {
+				c.NextHop[k] = v
+			}
+		}
+		for k, v := range niR.refCounts.NextHopGroup {
+			if v != 0 {
+				c.NextHopGroup[k] = v
+			}
+		}
+		niR.refCounts.mu.RUnlock()
+		out[name] = c
+	}
+	return out
+}
